@@ -827,6 +827,9 @@ pub fn execute(s: &W5Scn, run_dir: &str) -> RunOutcome {
         if !b.get_trades().is_empty() {
             stats.probe("object_with_trades");
         }
+        if b.bid_levels()[9].0 > 0 || b.ask_levels()[9].0 > 0 {
+            stats.probe("deepest_level_populated");
+        }
         stats.sim_time += b.get_time();
     }
     RunOutcome { violation: viol, stats }
